@@ -385,8 +385,13 @@ func ProcessIndexRequestPle(tsNow uint64, indexNameIn string, flush bool,
 	}
 
 	for _, ple := range pleArray {
-		ple.SetTimestamp(utils.ExtractTimeStamp(ple.GetRawJson(), &tsKey))
-		if ple.GetTimestamp() == 0 {
+		// GetNewPLE already set the event time (timestamp key of the document, else arrival
+		// time) and the protocol handlers may have replaced it with the time their protocol
+		// carries (OTLP time_unix_nano, span start time, HEC time). Only a timestamp found in
+		// the document under the key used for this index overrides it.
+		if ts := utils.ExtractTimeStamp(ple.GetRawJson(), &tsKey); ts != 0 {
+			ple.SetTimestamp(ts)
+		} else if ple.GetTimestamp() == 0 {
 			ple.SetTimestamp(tsNow)
 		}
 	}
